@@ -631,6 +631,9 @@ def inheritance_closure(sig, th, pub):
     return bad, n
 
 
+COPY_PROBLEMS = []  # filled by old_without_new for the history it was last called on
+
+
 def old_without_new(sig, th, events):
     """(N) over the condition evaluations of one history: rows found in the old partition of a member
     relation's `_all` copy that were in neither partition at the previous observation point.
@@ -642,6 +645,8 @@ def old_without_new(sig, th, events):
     prev = None
     prev_alloc = None
     found = []
+    copy_problems = COPY_PROBLEMS
+    del copy_problems[:]
     steps = 0
     for ev in events:
         # no reset between closes: API calls made after a close only ever add rows to *new*
@@ -650,13 +655,32 @@ def old_without_new(sig, th, events):
         if ev.get("e") != "cond" or "private" not in ev:
             continue
         cur = {}
+        copies = {}
         for name, rows in ev["private"]["index"].items():
             info = driver.parse_index_name(name, rel_snakes, type_snakes)
-            if info["suffix"] != "all" or info["kind"] != "rel" or info["eqs"]:
+            if info["suffix"] not in ("all", "own") or info["kind"] != "rel" or info["eqs"]:
                 continue
             rel = rel_snakes[info["base"]]
             full = set(tuple(r) for r in decode_index_rows(info, rows, len(sig.rels[rel])))
-            cur.setdefault(rel, {"new": set(), "old": set()})[info["age"]] |= full
+            copies.setdefault((rel, info["age"], info["suffix"]), []).append((name, full))
+            if info["suffix"] == "all":
+                cur.setdefault(rel, {"new": set(), "old": set()})[info["age"]] |= full
+        # (C) all column orders of one (relation, age, own|all) describe the same rows; own is part of all;
+        # the public iterator yields exactly new-all + old-all
+        for (rel, age, suffix), cs in sorted(copies.items()):
+            for name, full in cs[1:]:
+                if full != cs[0][1] and len(copy_problems) < 5:
+                    copy_problems.append("condition evaluation %d: index copies %s and %s of %s hold different rows: only in the first %s, only in the second %s" % (
+                        ev["iter"], cs[0][0], name, rel, sorted(cs[0][1] - full)[:3], sorted(full - cs[0][1])[:3]))
+            if suffix == "own":
+                al = copies.get((rel, age, "all"))
+                if al and not cs[0][1] <= al[0][1] and len(copy_problems) < 5:
+                    copy_problems.append("condition evaluation %d: %s rows %s of %s are in the own copy but not in the all copy" % (ev["iter"], age, sorted(cs[0][1] - al[0][1])[:3], rel))
+        if "public" in ev:
+            for rel, parts in cur.items():
+                pubrows = set(tuple(r) for r in ev["public"]["rels"].get(rel, []))
+                if pubrows != (parts["new"] | parts["old"]) and len(copy_problems) < 5:
+                    copy_problems.append("condition evaluation %d: iter_%s yields %s but the `_all` copies hold %s" % (ev["iter"], rel, sorted(pubrows ^ (parts["new"] | parts["old"]))[:3], "other rows"))
         if prev is not None:
             steps += 1
             roots = ev.get("public", {}).get("roots")
@@ -769,6 +793,9 @@ def c17_task(task):
                 _inc(out, "probe-cannot-classify")
                 breaches, steps = [], 0
             _cnt(out, "observation_steps_checked", steps)
+            if COPY_PROBLEMS:
+                out["violations"].append(_vio("c17:index-copies-disagree", "history %s (%s): redundant copies of a member relation disagree:\n  %s" % (tag, vname, "\n  ".join(COPY_PROBLEMS[:4])), th, script, {"history.txt": tag}))
+                continue
             # (I) inheritance closure
             bad, n = inheritance_closure(sig, th, pub)
             _cnt(out, "inherited_tuples_checked", n)
